@@ -6,4 +6,5 @@ CONSTANTS P = 7
           Modulus = 6
 INVARIANT Bound
 INVARIANT SwapSym
+INVARIANT SelfMatch
 INVARIANT Export
